@@ -124,6 +124,7 @@ func runC09(c *eng.Ctx, tier string) {
 	}
 
 	errorWrapDiscipline(c, "R-C09-6")
+	notFoundDiscipline(c, "R-C09-6")
 	c09Server(c, d)
 	c09Client(c)
 	c09FileClient(c)
